@@ -3,6 +3,7 @@ import RbV.Lemmas.TracebackSound
 import RbV.Lemmas.TracebackRing
 import RbV.Lemmas.TracebackScan
 import RbV.Lemmas.TracebackLongSound
+import RbV.Thm.GenSrcMyersSimple
 /-!
 # C10 — Myers traceback yields valid alignments
 
@@ -478,5 +479,29 @@ set_option maxRecDepth 40000 in
 open RbV.Model.MyersTracebackLong RbV.Model.MyersTraceback in
 example : (tracebackStoreL 4 eqSym [1, 2, 3, 4, 5, 6] 0 8 (oldL 16) [9, 1, 2, 3, 5, 6, 9] 5).2.2 ≠
     (traceback (unitW eqSym) [1, 2, 3, 4, 5, 6] [9, 1, 2, 3, 5, 6, 9] 5).2 := by decide
+
+/-! ## The column step, translated from the source text (genukk; docs/notes/GEN.md, "Translated function bodies")
+
+The columns the traceback stores and walks are the states `Myers::_step` produces.  `RbV/Gen/SrcMyersSimple.lean` is the
+text of `_step` (simple.rs) translated to Lean on every `./check C10` (generic word type `T` = `Nat` below `2^w`); the
+theorem is re-proved against the regenerated definition (proof: `RbV/Thm/GenSrcMyersSimple.lean`, shared with C09). -/
+
+/-- **`Myers::_step`, as written, is the model's bit-vector step** (`MyersSimple.step`, the function the stored-state
+traceback models `stateAfter` / `colSeq` apply per text symbol), for every word width `w ≥ 2` and every state on which the
+`dist` update neither underflows nor leaves `DistType` (true on every state a search reaches: C09
+`myers_find_all_end_source_exact`). -/
+theorem myers_step_source_eq_model (w wd m : Nat) (hw : 1 < w) (peqT : List Nat) (a : Nat) (eq : BitVec w)
+    (s : RbV.Model.MyersSimple.St w) (hpeq : RbV.Rs.idx peqT a = RbV.Rs.Res.ok eq.toNat)
+    (hlo : ((s.pv &&& RbV.Model.MyersSimple.xhOf eq s.pv).getLsbD (m - 1)).toNat ≤
+      s.dist + ((s.mv ||| ~~~(RbV.Model.MyersSimple.xhOf eq s.pv ||| s.pv)).getLsbD (m - 1)).toNat)
+    (hhi : s.dist + 1 < 2 ^ 64) (hwd : (RbV.Model.MyersSimple.step m eq s).dist < 2 ^ wd) :
+    RbV.Gen.SrcMyersSimple.step_ (w := w) (wd := wd) (peq := peqT) (bound := 2 ^ (m - 1)) (pv := s.pv.toNat)
+        (mv := s.mv.toNat) (dist := s.dist) (a := a) =
+      RbV.Rs.Res.ok ((RbV.Model.MyersSimple.step m eq s).pv.toNat, (RbV.Model.MyersSimple.step m eq s).mv.toNat,
+        (RbV.Model.MyersSimple.step m eq s).dist) :=
+  RbV.Thm.GenSrcMyersSimple.step__eq_model w wd m hw peqT a eq s hpeq hlo hhi hwd
+
+example : RbV.Gen.SrcMyersSimple.step_ (w := 8) (wd := 8) (peq := [0, 0b101, 0b010, 0]) (bound := 0b100) (pv := 255) (mv := 0)
+    (dist := 3) (a := 1) = RbV.Rs.Res.ok (254, 0, 2) := by decide
 
 end RbV.Thm.C10
